@@ -267,7 +267,7 @@ def r04_8(ctx):
 
 def rules(ctx):
     from ..engine import only
-    return [r04_1, r04_2, r04_4, r04_5, r04_6, r04_7, r04_8,
+    return [__import__('vjsx.rules.c10', fromlist=['x']).field_ratchet('directive lowering must not depend on earlier elements'), r04_1, r04_2, r04_4, r04_5, r04_6, r04_7, r04_8,
             only(c07.r07_6, lambda k: "directive::" in k or k.startswith("JSX attribute literal"), "string values of v-html / v-text"),
             only(c11.r11_1, lambda k: k.startswith("parse_"), "value / argument of a parsed directive come from distinct parts of the attribute value")]
 
